@@ -18,10 +18,31 @@
                 close():    [_close = True]                                     (call step)
                             join(writer) [close data sets]
                 start / pause / resume: one step each (no synchronisation operation inside)
-     writer     wait(w2d, .5) -> T: [write every data set, subdivide where flagged]
+                start() after a completed stop() begins the NEXT RECORDING of the same collection (at most MaxRec):
+                new files (the user changed the metadata, so the names differ), recording index rec + 1, the clock
+                reference and the deadlines are reset -- and everything else is as the code leaves it: _elapsed_time
+                keeps the value of the last pause() (eacc; unless EaccReset), wbuf still holds the final segment that stop() handed to
+                finalize(), the events and the writer are wherever the previous recording left them.
+                update() between two recordings returns at once (the message belongs to no recording).
+     writer     wait(w2d, .5) -> T: io(d1) [d1.write(): formatter.write(wbuf), wbuf.clear(), subdivide if flagged] ; io(d2) [d2.write()]
                                  F: [leave the loop if _close]
-                then, in the order selected by WriterOrder (the code has "clear_then_set"):
+                then, in the order selected by WriterOrder ("clear_then_set" | "set_then_clear"):
                 clear(w2d) ; set(fin) [leave the loop if _close]
+                io(d) -- the writer is about to call DataSet.write() of d -- is a scheduling point like a synchronisation
+                operation: what the recorder does WHILE THE WRITER IS SERVICING a request (between two data sets, before the
+                first) is an interleaving of the model and of the executions, not hidden inside an atomic step.
+
+   WriterOrder = "handoff" is a different division of labour between the two events (candidate repair for the restart
+   defect of both orders above: the writer's LAST operation of a flush may be executed after stop() has returned, i.e.
+   during the next recording, where a late clear(w2d) erases a new request and a late set(fin) fakes its completion):
+     write_finished is set while no request is outstanding (initially set); only the recorder clears it (with a request),
+     only the writer sets it (request completed); write_to_disk is set by the recorder, cleared by the writer when it
+     ACCEPTS the request, i.e. before writing.
+     recorder   update(m):  is_set(fin) -> F: "unable to write fast enough", return
+                                           T: next_write, stage every data set ; clear(fin) ; set(w2d), return
+                stop():     wait(fin, .25)* until it returns True [stage + finalize + close every data set], return
+     writer     wait(w2d, .5) -> T: clear(w2d) ; io(d1) [d1.write()] ; io(d2) [d2.write()] ; set(fin)
+   After set(fin) the writer has no operation left that belongs to the flush, so nothing can arrive late.
 
    Time is explicit: the environment advances a clock (Tick) between API calls; elapsed time, the flush
    deadline (WRITE_PERIOD 15 s) and the subdivision deadlines are computed as the code computes them, so
@@ -33,36 +54,47 @@
    Files: a data set's output is a sequence of files (subdivision); each file is modelled at the level of
    the quicklogger format, which subsumes the line/frame formats: msgs = frames / lines / message headers
    written so far in file order, tmp = data blocks parked in the temp file, data = data block of the file
-   (after finalize), nw = number of write() calls, final.  The offset table maps message i to data block i. *)
+   (after finalize), nw = number of write() calls, final, r = the recording that opened the file.  The offset table
+   maps message i to data block i.
+
+   Properties are stated PER RECORDING: the files of recording r hold exactly the messages handed over while r was
+   recording (and not paused), in order -- nothing of another recording, nothing lost. *)
 EXTENDS Integers, Sequences, FiniteSets, TLC, Json
 
 CONSTANTS DS,          \* data set names; "d1" selects type "A" only, every other data set selects ALL
           Types,       \* message types, strings
           MaxMsgs, MaxNone, MaxTicks, MaxPause,   \* bounds on update(m), update(None), Tick, pause
+          MaxRec,      \* bound on start(): number of recordings of the collection (1 = no restart)
+          EaccReset,   \* does start() reset _elapsed_time?  (the code does not: FALSE; observed by a probe run)
           Dts,         \* set of clock advances (seconds)
-          WriterOrder, \* "clear_then_set" (the code) | "set_then_clear" (candidate repair)
+          WriterOrder, \* "clear_then_set" (the original code) | "set_then_clear" (the first repair) | "handoff" (see above)
           I1, I2,      \* subdivide_interval argument of d1 / of the other data sets (<= 0: continuous)
           GenOn,       \* keep a history of step labels (behaviour export)
           EdgeOn       \* print every transition (state graph export for transition coverage)
 
-ASSUME WriterOrder \in {"clear_then_set", "set_then_clear"}
+ASSUME WriterOrder \in {"clear_then_set", "set_then_clear", "handoff"}
+H == WriterOrder = "handoff"
 
 VARIABLES rpc,        \* recorder: "idle" or the pending synchronisation operation
-          wpc,        \* writer: "wait", "w_a" (first op after writing), "w_b" (second), "exited"
+          wpc,        \* writer: "wait", "io" (about to write data set DsSeq[wix]), "w_a" (first event op), "w_b" (second), "exited"
+          wix,        \* index of the data set the writer writes next (0 outside a flush)
           w2d, fin,   \* Events write_to_disk, write_finished
           closing,    \* _close
-          phase,      \* "new" -> start -> "rec" -> (last step of stop) -> "stopped"
+          phase,      \* "new" -> start -> "rec" -> (last step of stop) -> "stopped" -> start -> "rec" ...
+          rec,        \* index of the current / last recording (0 before the first start)
           paused, now, eacc, ref, nextw, nexts, sflag, uel,
           rbuf, wbuf, files,
-          arr,        \* messages handed to update so far: [t, live]  (id = index)
+          arr,        \* messages handed to update so far: [t, live, r]  (id = index; r = recording, live = recording and not paused)
           nnone, nticks, npause,
           hist
-vars == <<rpc, wpc, w2d, fin, closing, phase, paused, now, eacc, ref, nextw, nexts, sflag, uel,
+vars == <<rpc, wpc, wix, w2d, fin, closing, phase, rec, paused, now, eacc, ref, nextw, nexts, sflag, uel,
           rbuf, wbuf, files, arr, nnone, nticks, npause, hist>>
-Core == [rpc |-> rpc, wpc |-> wpc, w2d |-> w2d, fin |-> fin, closing |-> closing, phase |-> phase, paused |-> paused,
+Core == [rpc |-> rpc, wpc |-> wpc, wix |-> wix, w2d |-> w2d, fin |-> fin, closing |-> closing, phase |-> phase, rec |-> rec, paused |-> paused,
          now |-> now, eacc |-> eacc, ref |-> ref, nextw |-> nextw, nexts |-> nexts, sflag |-> sflag, uel |-> uel,
          rbuf |-> rbuf, wbuf |-> wbuf, files |-> files, arr |-> arr, nnone |-> nnone, nticks |-> nticks, npause |-> npause]
 
+ASSUME DS = {"d1", "d2"}
+DsSeq == <<"d1", "d2">>          \* DataCollection.datasets, in the order the writer loops over them
 Inf == 1000000
 WritePeriod == 15
 Sel(d) == IF d = "d1" THEN {"A"} ELSE Types
@@ -75,7 +107,7 @@ Elapsed == IF ~recording THEN 0 ELSE IF paused THEN eacc ELSE eacc + (now - ref)
 
 -----------------------------------------------------------------------------
 (* formatter layer *)
-EmptyFile == [msgs |-> <<>>, tmp |-> <<>>, data |-> <<>>, nw |-> 0, final |-> FALSE]
+EmptyFile(r) == [msgs |-> <<>>, tmp |-> <<>>, data |-> <<>>, nw |-> 0, final |-> FALSE, r |-> r]
 FWrite(f, b) == [f EXCEPT !.msgs = @ \o b, !.tmp = @ \o b, !.nw = @ + 1]
 FFinal(f, b) == IF f.nw > 0
                 THEN LET g == FWrite(f, b) IN [g EXCEPT !.data = g.tmp, !.final = TRUE]
@@ -86,20 +118,23 @@ Readable(f) == f.final /\ f.data = f.msgs            \* header i and data block 
 
 RECURSIVE FlatMsgs(_)
 FlatMsgs(fs) == IF fs = <<>> THEN <<>> ELSE fs[1].msgs \o FlatMsgs(Tail(fs))
-Flat(d) == FlatMsgs(files[d])
+FilesOf(d, r) == SelectSeq(files[d], LAMBDA f : f.r = r)
+Flat(d, r) == FlatMsgs(FilesOf(d, r))                  \* what the files of recording r of data set d hold
 
-Exp(d) == LET F[i \in 0..Len(arr)] == IF i = 0 THEN <<>>
-                                      ELSE IF arr[i].live /\ arr[i].t \in Sel(d) THEN Append(F[i - 1], i) ELSE F[i - 1]
-          IN F[Len(arr)]
+Exp(d, r) == LET F[i \in 0..Len(arr)] == IF i = 0 THEN <<>>
+                                         ELSE IF arr[i].live /\ arr[i].r = r /\ arr[i].t \in Sel(d) THEN Append(F[i - 1], i) ELSE F[i - 1]
+             IN F[Len(arr)]
+Pend(d) == SelectSeq(wbuf[d], LAMBDA i : arr[i].r = rec)   \* staged and not yet written; what stop() left in wbuf is dead
 
 -----------------------------------------------------------------------------
 (* properties *)
-Conservation == recording => \A d \in DS : Flat(d) \o wbuf[d] \o rbuf[d] = Exp(d)
-FilesComplete == stopped => \A d \in DS : /\ Flat(d) = Exp(d)
-                                         /\ \A i \in 1..Len(files[d]) : Readable(files[d][i])
+Conservation == recording => \A d \in DS : Flat(d, rec) \o Pend(d) \o rbuf[d] = Exp(d, rec)
+RecComplete(r) == \A d \in DS : /\ Flat(d, r) = Exp(d, r)
+                                /\ \A i \in 1..Len(files[d]) : files[d][i].r = r => Readable(files[d][i])
+FilesComplete == \A r \in 1..rec : (r < rec \/ stopped) => RecComplete(r)     \* every finished recording, at any later time
 Terminal == rpc = "closed" /\ wpc = "exited"
 TerminalComplete == Terminal => stopped
-StopTerminates == (rpc = "s_isset") ~> stopped
+StopTerminates == (rpc \in {"s_isset", "s_wait"}) ~> stopped
 WriterLeaves == closing ~> (wpc = "exited")
 
 -----------------------------------------------------------------------------
@@ -112,25 +147,26 @@ W == [th |-> "W", a |-> "Op", t |-> "", dt |-> 0]
 StageAll == /\ wbuf' = rbuf
             /\ rbuf' = [d \in DS |-> <<>>]
 
-RStart ==
-  /\ rpc = "idle" /\ phase = "new"
-  /\ phase' = "rec" /\ paused' = FALSE /\ ref' = now /\ nextw' = WritePeriod
+RStart ==     \* the first start(), or start() again after a completed stop(): eacc (_elapsed_time), rbuf, wbuf, w2d, fin are NOT touched
+  /\ rpc = "idle" /\ (phase = "new" \/ stopped) /\ rec < MaxRec
+  /\ phase' = "rec" /\ rec' = rec + 1 /\ paused' = FALSE /\ ref' = now /\ nextw' = WritePeriod
   /\ nexts' = [d \in DS |-> Interval(d)] /\ sflag' = [d \in DS |-> FALSE]
-  /\ files' = [d \in DS |-> <<EmptyFile>>]
-  /\ UNCHANGED <<rpc, wpc, w2d, fin, closing, now, eacc, uel, rbuf, wbuf, arr, nnone, nticks, npause>>
+  /\ files' = [d \in DS |-> Append(files[d], EmptyFile(rec + 1))]
+  /\ eacc' = IF EaccReset THEN 0 ELSE eacc
+  /\ UNCHANGED <<rpc, wpc, wix, w2d, fin, closing, now, uel, rbuf, wbuf, arr, nnone, nticks, npause>>
   /\ Log(R("Start")) /\ Edge(R("Start"))
 
 RTick(dt) ==
   /\ rpc = "idle" /\ recording /\ nticks < MaxTicks
   /\ now' = now + dt /\ nticks' = nticks + 1
-  /\ UNCHANGED <<rpc, wpc, w2d, fin, closing, phase, paused, eacc, ref, nextw, nexts, sflag, uel, rbuf, wbuf, files, arr, nnone, npause>>
+  /\ UNCHANGED <<rpc, wpc, wix, w2d, fin, closing, phase, rec, paused, eacc, ref, nextw, nexts, sflag, uel, rbuf, wbuf, files, arr, nnone, npause>>
   /\ Log([R("Tick") EXCEPT !.dt = dt]) /\ Edge([R("Tick") EXCEPT !.dt = dt])
 
 RUpdate(t) ==
-  /\ rpc = "idle" /\ recording
+  /\ rpc = "idle" /\ (recording \/ (stopped /\ rec < MaxRec))
   /\ IF t = "None" THEN nnone < MaxNone /\ nnone' = nnone + 1 /\ UNCHANGED arr
-     ELSE Len(arr) < MaxMsgs /\ arr' = Append(arr, [t |-> t, live |-> ~paused]) /\ UNCHANGED nnone
-  /\ IF paused
+     ELSE Len(arr) < MaxMsgs /\ arr' = Append(arr, [t |-> t, live |-> recording /\ ~paused, r |-> rec]) /\ UNCHANGED nnone
+  /\ IF paused \/ ~recording
      THEN UNCHANGED <<rpc, rbuf, nexts, sflag, uel>>
      ELSE LET e == Elapsed
               id == Len(arr) + 1
@@ -139,37 +175,43 @@ RUpdate(t) ==
              /\ nexts' = [d \in DS |-> IF d \in subs THEN e + Interval(d) ELSE nexts[d]]
              /\ sflag' = [d \in DS |-> sflag[d] \/ d \in subs]
              /\ IF subs # {} \/ e > nextw THEN rpc' = "u_isset" /\ uel' = e ELSE UNCHANGED <<rpc, uel>>
-  /\ UNCHANGED <<wpc, w2d, fin, closing, phase, paused, now, eacc, ref, nextw, wbuf, files, nticks, npause>>
+  /\ UNCHANGED <<wpc, wix, w2d, fin, closing, phase, rec, paused, now, eacc, ref, nextw, wbuf, files, nticks, npause>>
   /\ Log([R("Update") EXCEPT !.t = t]) /\ Edge([R("Update") EXCEPT !.t = t])
 
 RPause ==
   /\ rpc = "idle" /\ recording /\ ~paused /\ npause < MaxPause
   /\ eacc' = Elapsed /\ paused' = TRUE /\ npause' = npause + 1
-  /\ UNCHANGED <<rpc, wpc, w2d, fin, closing, phase, now, ref, nextw, nexts, sflag, uel, rbuf, wbuf, files, arr, nnone, nticks>>
+  /\ UNCHANGED <<rpc, wpc, wix, w2d, fin, closing, phase, rec, now, ref, nextw, nexts, sflag, uel, rbuf, wbuf, files, arr, nnone, nticks>>
   /\ Log(R("Pause")) /\ Edge(R("Pause"))
 
 RResume ==
   /\ rpc = "idle" /\ recording /\ paused
   /\ paused' = FALSE /\ ref' = now
-  /\ UNCHANGED <<rpc, wpc, w2d, fin, closing, phase, now, eacc, nextw, nexts, sflag, uel, rbuf, wbuf, files, arr, nnone, nticks, npause>>
+  /\ UNCHANGED <<rpc, wpc, wix, w2d, fin, closing, phase, rec, now, eacc, nextw, nexts, sflag, uel, rbuf, wbuf, files, arr, nnone, nticks, npause>>
   /\ Log(R("Resume")) /\ Edge(R("Resume"))
 
 RStop ==
   /\ rpc = "idle" /\ recording
-  /\ rpc' = "s_isset"
-  /\ UNCHANGED <<wpc, w2d, fin, closing, phase, paused, now, eacc, ref, nextw, nexts, sflag, uel, rbuf, wbuf, files, arr, nnone, nticks, npause>>
+  /\ rpc' = IF H THEN "s_wait" ELSE "s_isset"
+  /\ UNCHANGED <<wpc, wix, w2d, fin, closing, phase, rec, paused, now, eacc, ref, nextw, nexts, sflag, uel, rbuf, wbuf, files, arr, nnone, nticks, npause>>
   /\ Log(R("Stop")) /\ Edge(R("Stop"))
 
 RClose ==
   /\ rpc = "idle" /\ stopped /\ ~closing
   /\ closing' = TRUE /\ rpc' = "c_join"
-  /\ UNCHANGED <<wpc, w2d, fin, phase, paused, now, eacc, ref, nextw, nexts, sflag, uel, rbuf, wbuf, files, arr, nnone, nticks, npause>>
+  /\ UNCHANGED <<wpc, wix, w2d, fin, phase, rec, paused, now, eacc, ref, nextw, nexts, sflag, uel, rbuf, wbuf, files, arr, nnone, nticks, npause>>
   /\ Log(R("Close")) /\ Edge(R("Close"))
 
 (* the recorder's pending synchronisation operation *)
+StopBody ==     \* the end of stop(): ds.stop() = stage_for_write + formatter.finalize(wbuf); ds.close(); reset of the recording state
+  /\ StageAll
+  /\ files' = [d \in DS |-> SetLast(files[d], FFinal(Cur(d), rbuf[d]))]
+  /\ phase' = "stopped" /\ paused' = FALSE /\ nextw' = -1 /\ rpc' = "idle"
+  /\ UNCHANGED <<w2d, uel>>
+
 ROpBody ==
   CASE rpc = "u_isset" ->
-         IF w2d
+         IF (IF H THEN ~fin ELSE w2d)
          THEN /\ rpc' = "idle" /\ uel' = 0
               /\ UNCHANGED <<w2d, fin, phase, paused, nextw, rbuf, wbuf, files>>
          ELSE /\ nextw' = uel + WritePeriod /\ StageAll /\ rpc' = "u_clearfin" /\ uel' = 0
@@ -180,16 +222,14 @@ ROpBody ==
                            /\ UNCHANGED <<fin, phase, paused, nextw, uel, rbuf, wbuf, files>>
     [] rpc = "s_isset" -> /\ rpc' = IF w2d THEN "s_wait" ELSE "s_clearw2d"
                           /\ UNCHANGED <<w2d, fin, phase, paused, nextw, uel, rbuf, wbuf, files>>
-    [] rpc = "s_wait" -> /\ fin /\ rpc' = "s_clearw2d"
-                         /\ UNCHANGED <<w2d, fin, phase, paused, nextw, uel, rbuf, wbuf, files>>
+    [] rpc = "s_wait" -> /\ fin
+                         /\ IF H THEN UNCHANGED fin /\ StopBody
+                            ELSE rpc' = "s_clearw2d" /\ UNCHANGED <<w2d, fin, phase, paused, nextw, uel, rbuf, wbuf, files>>
     [] rpc = "s_clearw2d" -> /\ w2d' = FALSE /\ rpc' = "s_clearfin"
                              /\ UNCHANGED <<fin, phase, paused, nextw, uel, rbuf, wbuf, files>>
     [] rpc = "s_clearfin" ->
          /\ fin' = FALSE
-         /\ StageAll                                                     \* ds.stop(): stage_for_write ...
-         /\ files' = [d \in DS |-> SetLast(files[d], FFinal(Cur(d), rbuf[d]))]   \* ... formatter.finalize(wbuf); close
-         /\ phase' = "stopped" /\ paused' = FALSE /\ nextw' = -1 /\ rpc' = "idle"
-         /\ UNCHANGED <<w2d, uel>>
+         /\ StopBody
     [] rpc = "c_join" -> /\ wpc = "exited" /\ rpc' = "closed"
                          /\ UNCHANGED <<w2d, fin, phase, paused, nextw, uel, rbuf, wbuf, files>>
     [] OTHER -> FALSE
@@ -197,44 +237,52 @@ ROpBody ==
 ROp ==
   /\ rpc \notin {"idle", "closed"}
   /\ ROpBody
-  /\ UNCHANGED <<wpc, closing, now, eacc, ref, nexts, sflag, arr, nnone, nticks, npause>>
+  /\ UNCHANGED <<wpc, wix, closing, rec, now, eacc, ref, nexts, sflag, arr, nnone, nticks, npause>>
   /\ Log(R("Op")) /\ Edge(R("Op"))
 
 (* writer *)
 DsWritten(d) ==      \* DataSet.write(): formatter.write(wbuf); wbuf.clear(); subdivide if flagged
   LET f1 == FWrite(Cur(d), wbuf[d])
   IN IF ~stopped /\ sflag[d]
-     THEN Append(SetLast(files[d], FFinal(f1, <<>>)), EmptyFile)
+     THEN Append(SetLast(files[d], FFinal(f1, <<>>)), EmptyFile(rec))
      ELSE SetLast(files[d], f1)
 
-WFirst == IF WriterOrder = "clear_then_set" THEN "clear" ELSE "set"
+WFirst == IF WriterOrder = "set_then_clear" THEN "set" ELSE "clear"
 WDo(which) == IF which = "clear" THEN w2d' = FALSE /\ UNCHANGED fin ELSE fin' = TRUE /\ UNCHANGED w2d
+
+WriteOne(d) == /\ files' = [files EXCEPT ![d] = DsWritten(d)]
+               /\ wbuf' = [wbuf EXCEPT ![d] = <<>>]
+               /\ sflag' = [sflag EXCEPT ![d] = IF ~stopped THEN FALSE ELSE sflag[d]]
 
 WOpBody ==
   CASE wpc = "wait" ->
          IF w2d
          THEN /\ phase # "new"        \* (a request before start() is outside the recorder's protocol)
-              /\ files' = [d \in DS |-> DsWritten(d)]
-              /\ wbuf' = [d \in DS |-> <<>>]
-              /\ sflag' = [d \in DS |-> IF ~stopped THEN FALSE ELSE sflag[d]]
-              /\ wpc' = "w_a"
-              /\ UNCHANGED <<w2d, fin>>
-         ELSE /\ closing /\ wpc' = "exited"          \* timeout and _close; a timeout without _close stutters
+              /\ wpc' = IF H THEN "w_a" ELSE "io"          \* handoff: the request is accepted first (clear), then serviced
+              /\ wix' = IF H THEN 0 ELSE 1
               /\ UNCHANGED <<w2d, fin, files, wbuf, sflag>>
-    [] wpc = "w_a" -> /\ WDo(WFirst) /\ wpc' = "w_b" /\ UNCHANGED <<files, wbuf, sflag>>
+         ELSE /\ closing /\ wpc' = "exited"          \* timeout and _close; a timeout without _close stutters
+              /\ UNCHANGED <<wix, w2d, fin, files, wbuf, sflag>>
+    [] wpc = "io" -> /\ WriteOne(DsSeq[wix])
+                     /\ IF wix < Len(DsSeq) THEN wix' = wix + 1 /\ UNCHANGED wpc
+                        ELSE wix' = 0 /\ wpc' = IF H THEN "w_b" ELSE "w_a"
+                     /\ UNCHANGED <<w2d, fin>>
+    [] wpc = "w_a" -> /\ WDo(WFirst)
+                      /\ IF H THEN wpc' = "io" /\ wix' = 1 ELSE wpc' = "w_b" /\ UNCHANGED wix
+                      /\ UNCHANGED <<files, wbuf, sflag>>
     [] wpc = "w_b" -> /\ WDo(IF WFirst = "clear" THEN "set" ELSE "clear")
                       /\ wpc' = IF closing THEN "exited" ELSE "wait"
-                      /\ UNCHANGED <<files, wbuf, sflag>>
+                      /\ UNCHANGED <<wix, files, wbuf, sflag>>
     [] OTHER -> FALSE
 
 WOp ==
   /\ wpc # "exited"
   /\ WOpBody
-  /\ UNCHANGED <<rpc, closing, phase, paused, now, eacc, ref, nextw, nexts, uel, rbuf, arr, nnone, nticks, npause>>
+  /\ UNCHANGED <<rpc, closing, phase, rec, paused, now, eacc, ref, nextw, nexts, uel, rbuf, arr, nnone, nticks, npause>>
   /\ Log(W) /\ Edge(W)
 
 Init ==
-  /\ rpc = "idle" /\ wpc = "wait" /\ w2d = FALSE /\ fin = FALSE /\ closing = FALSE /\ phase = "new" /\ paused = FALSE
+  /\ rpc = "idle" /\ wpc = "wait" /\ wix = 0 /\ w2d = FALSE /\ fin = H /\ closing = FALSE /\ phase = "new" /\ rec = 0 /\ paused = FALSE
   /\ now = 0 /\ eacc = 0 /\ ref = 0 /\ nextw = -1 /\ nexts = [d \in DS |-> Inf] /\ sflag = [d \in DS |-> FALSE] /\ uel = 0
   /\ rbuf = [d \in DS |-> <<>>] /\ wbuf = [d \in DS |-> <<>>] /\ files = [d \in DS |-> <<>>]
   /\ arr = <<>> /\ nnone = 0 /\ nticks = 0 /\ npause = 0 /\ hist = <<>>
